@@ -27,6 +27,9 @@ structure Key where
   define : List String                 -- the -D assignments as an order-independent key (sorted pairs)
   partition : Option String
   uuid : Nat                           -- `build_uuid` of the running binary
+  /-- every explicitly requested builder/app name exists in the project (a builder context resp. an app; a
+      property of the request and the loaded project) -/
+  namesKnown : Bool := true
   deriving Repr, DecidableEq
 
 /-- lines 1127-1151 of generate.rs: may a record written with key `r` serve a run with key `k`?
@@ -34,6 +37,7 @@ structure Key where
 def keyValid (r k : Key) : Bool :=
   r.uuid == k.uuid && r.partition == k.partition && r.builders.isSuperset k.builders && r.apps.isSuperset k.apps
     && r.mode == k.mode && r.select == k.select && r.disable == k.disable && r.define == k.define
+    && k.namesKnown
 
 inductive Ninja where
   | absent
